@@ -720,6 +720,38 @@ def main():
         elif not (np.abs(uF[2] - uF[1]).max() <= 1e-8 * (1 + np.abs(uF[1]).max())):
             res.fail("duplicated connection changes the solution", f"add_connection_fixed(nodes) entered twice: the solution differs by {np.abs(uF[2] - uF[1]).max():.2e} from the one with the connection entered once", dict(identF, times_entered=2))
 
+    # ---------------- B9: a condition on an unknown the problem does not have ----------------
+    # "every constrained dof holds its prescribed value": a condition naming an unknown the problem does not have must be refused
+    # (as add_neumann and the distributed loads do) or, if accepted, must not constrain dofs of nodes it does not name
+    for simk9, unk9, bad9 in (("elastic2D", ["x", "y"], "z"), ("thermal", ["t"], "x"), ("elastic3D", ["x", "y", "z"], "rx")):
+        res.case(("foreign-unknown", simk9))
+        identU = dict(sim=simk9, conditions=f"clamp on x = 0, then add_dirichlet(nodes on x = max, [0.5], ['{bad9}'])")
+        try:
+            mesh9 = M.mesh_3d("TETRA4") if simk9 == "elastic3D" else M.mesh_2d("TRI3", a=1.0, b=1.0, h=0.5)
+            s9 = Simulations.Thermal(mesh9, Models.Thermal(1.0, 1.0)) if simk9 == "thermal" else Simulations.Elastic(mesh9, Models.Elastic.Isotropic(mesh9.dim))
+            left9 = mesh9.Nodes_Conditions(lambda x, y, z: x == 0)
+            xmax9 = mesh9.coord[:, 0].max()
+            right9 = mesh9.Nodes_Conditions(lambda x, y, z: x == xmax9)
+            s9.add_dirichlet(left9, [0.0] * len(unk9), unk9)
+            import io as _io, contextlib as _ctx
+            refused = False
+            try:
+                with _ctx.redirect_stdout(_io.StringIO()):
+                    s9.add_dirichlet(right9, [0.5], [bad9])
+            except (AssertionError, ValueError, KeyError, IndexError):
+                refused = True
+            if not refused:
+                dofs9 = set(int(d) for d in np.asarray(s9.Bc_dofs_Dirichlet()).ravel())
+                named9 = set(int(n) * len(unk9) + c for n in list(left9) + list(right9) for c in range(len(unk9)))
+                u9 = np.asarray(s9.Solve()).reshape(-1, len(unk9))
+                held9 = np.abs(u9[left9]).max()
+                if not (dofs9 <= named9) or not (held9 <= 1e-12):
+                    res.fail("condition on an unknown the problem does not have is accepted and constrains other dofs",
+                             f"add_dirichlet(nodes, [0.5], ['{bad9}']) on a problem with the unknowns {unk9} was accepted: constrained dofs {sorted(dofs9 - named9)[:6]} belong to nodes / components the conditions do not name, "
+                             f"and the clamped nodes hold {held9:.3g} instead of 0", identU)
+        except Exception as ex:  # noqa: BLE001
+            res.fail("condition on an unknown the problem does not have: scenario raises", f"{type(ex).__name__}: {str(ex)[:200]}", identU)
+
     # ---------------- correspondence ----------------
     answers = driver.ask(lines)
     if answers is None:
